@@ -71,7 +71,7 @@ def durCond (c : Option (DurOp × Nat)) (isAlerting : Bool) (d : RuleDur) : Bool
     if isAlerting then
       match d with
       | .absent => false
-      | .unparsable => true           -- `if dur, err := parseDuration(...); err == nil { ... }`
+      | .unparsable => false          -- not a duration: satisfies no duration condition (fix 9516199)
       | .dur v => op.holds v lim
     else false
 
